@@ -32,7 +32,7 @@ Predicted(e, guard) == UNION {PredictTouched(ConcName(e.names[i], i - 1), OptOf(
 Observed(e) == ToSet(e.touched)
 
 \* classification of a rejected run (goes into the finding signature): is every outside path one the model of
-\* the code as written predicts for exactly these names and options?
+\* the unguarded deviation (the code before 97c8245) predicts for exactly these names and options?
 ObsOutside(e)  == {p \in Observed(e) : ~Below(e.out, p)}
 PredOutside(e) == {p \in Predicted(e, FALSE) : ~Below(e.out, p)}
 RawOutside(e)  == {p \in ToSet(e.created) \cup ToSet(e.modified) : ~Below(e.out, p)}
